@@ -2,6 +2,20 @@
 #ifndef CONTRACTS_KS_H
 #define CONTRACTS_KS_H
 extern int32_t u_bad, u_cnt; extern Torus32 u_A;
+#ifdef KS_WATCHED
+/* watched-index variant (H_TRANSLATE_W): u_cntB counts the uses of the rows of index g_i */
+extern int32_t u_cntB, g_i;
+#define LOOP_lweKeySwitchTranslate_fromArray_0(i) \
+    __CPROVER_assigns(i, u_bad, u_cnt, u_cntB) \
+    __CPROVER_loop_invariant(0 <= i && i <= n && u_bad == 0) \
+    __CPROVER_loop_invariant(u_cntB == ((i) > g_i ? TNZ_PREFIX(u_A, VERIF_T) : 0)) \
+    __CPROVER_decreases(n - i)
+#define LOOP_lweKeySwitchTranslate_fromArray_1(j) \
+    __CPROVER_assigns(j, u_bad, u_cnt, u_cntB) \
+    __CPROVER_loop_invariant(0 <= j && j <= t && u_bad == 0) \
+    __CPROVER_loop_invariant(u_cntB == __CPROVER_loop_entry(u_cntB) + ((i) == g_i ? TNZ_PREFIX(u_A, j) : 0)) \
+    __CPROVER_decreases(t - j)
+#else
 #define LOOP_lweKeySwitchTranslate_fromArray_0(i) \
     __CPROVER_assigns(i, u_bad, u_cnt) \
     __CPROVER_loop_invariant(0 <= i && i <= n && u_bad == 0) \
@@ -12,4 +26,5 @@ extern int32_t u_bad, u_cnt; extern Torus32 u_A;
     __CPROVER_loop_invariant(0 <= j && j <= t && u_bad == 0) \
     __CPROVER_loop_invariant(u_cnt == __CPROVER_loop_entry(u_cnt) + TNZ_PREFIX(u_A, j)) \
     __CPROVER_decreases(t - j)
+#endif
 #endif
